@@ -13,13 +13,42 @@ abbrev P (α : Type) := StateT (List String) Option α
 
 namespace P
 
+/-- The `SC <k>` case prefix (every *input* coordinate is multiplied by 2^k before the case is evaluated, on both sides)
+travels as a marker token `@S<k>` that stays at the head of the input token list; all combinators look through it. -/
+def scaleOf? (t : String) : Option Int :=
+  if t.startsWith "@S" then (t.drop 2).toString.toInt? else none
+
+def isMarker (t : String) : Bool := (scaleOf? t).isSome
+
+def atEnd (ts : List String) : Bool :=
+  match ts with
+  | [] => true
+  | [m] => isMarker m
+  | _ => false
+
 def tok : P String := fun ts => match ts with
   | [] => none
-  | t :: rest => some (t, rest)
+  | m :: rest =>
+    if isMarker m then
+      (match rest with
+       | [] => none
+       | t :: rest' => some (t, m :: rest'))
+    else some (m, rest)
 
-def peek? : P (Option String) := fun ts => some (ts.head?, ts)
+def peek? : P (Option String) := fun ts =>
+  match ts with
+  | m :: rest => if isMarker m then some (rest.head?, ts) else some (some m, ts)
+  | [] => some (none, ts)
 
-def eof : P Unit := fun ts => if ts.isEmpty then some ((), ts) else none
+def eof : P Unit := fun ts => if atEnd ts then some ((), ts) else none
+
+/-- the factor 2^k of the `SC <k>` prefix (1 without a prefix) -/
+def scale : P Rat := fun ts =>
+  match ts with
+  | m :: _ => (match scaleOf? m with
+      | some k => some (pow2 k, ts)
+      | none => some (1, ts))
+  | [] => some (1, ts)
 
 def fail {α} : P α := fun _ => none
 
@@ -73,18 +102,19 @@ def counted {α} (p : P α) : P (List α) := do
 def many {α} (p : P α) : P (List α) := fun ts =>
   let rec go (fuel : Nat) (acc : List α) (ts : List String) : Option (List α × List String) :=
     match fuel with
-    | 0 => if ts.isEmpty then some (acc.reverse, ts) else none
+    | 0 => if atEnd ts then some (acc.reverse, ts) else none
     | f + 1 =>
-      if ts.isEmpty then some (acc.reverse, ts) else
+      if atEnd ts then some (acc.reverse, ts) else
       match p ts with
       | some (a, ts') => go f (a :: acc) ts'
       | none => none
   go ts.length [] ts
 
 def pt : P Pt := do
+  let s ← scale
   let x ← rat
   let y ← rat
-  pure ⟨x, y⟩
+  pure ⟨x * s, y * s⟩
 
 def pts : P (List Pt) := counted pt
 
@@ -149,8 +179,8 @@ def untilArrow : P (List String) := fun ts =>
 
 def run {α} (p : P α) (ts : List String) : Option α :=
   match p ts with
-  | some (a, []) => some a
-  | _ => none
+  | some (a, rest) => if atEnd rest then some a else none
+  | none => none
 
 def runPrefix {α} (p : P α) (ts : List String) : Option (α × List String) := p ts
 
